@@ -27,7 +27,7 @@ int memset_s(void *s, size_t smax, int c, size_t n)
 VERIF_MAIN_BEGIN
 #if VARIANT == 1
     CAT3(tinyjambu_, WHICH, _state_t) st;
-    for (unsigned i = 0; i < sizeof(st) / 8; ++i) ((uint64_t *)&st)[i] = IN_U64(raw[i]);   /* arbitrary history */
+    for (unsigned i = 0; i < sizeof(st) / 8; ++i) ((uint64_t *)&st)[i] = IN_U64_AT(raw, i);   /* arbitrary history */
     CAT3(tinyjambu_, WHICH, _free)(&st);
     for (unsigned i = 0; i < sizeof(st) / 8; ++i) CHECK(((uint64_t *)&st)[i] == 0, "every byte of the state object is zero after free");
     CHECK(sizeof(st) % 8 == 0, "state size is a multiple of 8 (harness assumption)");
